@@ -325,6 +325,7 @@ func (i *interpreter) chanSend(fr *frame, ch *channel, v value) {
 		s.block(fr, func() bool { return false }, "send on nil channel")
 	}
 	if ch.trySend(v) {
+		s.yield(fr) // a receiver woken by this send may run first
 		return
 	}
 	w := &waiter{g: fr.g, ch: ch, send: true, v: v}
@@ -372,6 +373,8 @@ func (i *interpreter) chanClose(fr *frame, ch *channel) {
 		w.close = true
 		w.fire()
 	}
+	// the goroutines woken by the close may run before the closer continues
+	i.ps.sched.yield(fr)
 }
 
 type selCase struct {
